@@ -5,6 +5,7 @@
   `loc()`.  `Scanner.next` is `next_char()`.  All loops are structural recursions on `rest`.
   Symbol, keyword and continuation tables come from `Generated.lean` (extracted from the source).
 -/
+import SeedModel.Base
 import SeedModel.Token
 import SeedModel.Generated
 namespace Seed
@@ -70,10 +71,6 @@ def skipWs : List Char → Nat → Nat → Scanner
       skipWs r p.1 p.2
 
 def Scanner.skipWs (s : Scanner) : Scanner := Seed.skipWs s.rest s.line s.col
-
-def lookupAssoc {α β} [DecidableEq α] (k : α) : List (α × β) → Option β
-  | [] => none
-  | (k', v) :: r => if k = k' then some v else lookupAssoc k r
 
 def matchSingle (c : Char) : Option Token := lookupAssoc c Gen.singleSym
 def matchDouble (a b : Char) : Option Token := lookupAssoc (a, b) Gen.doubleSym
